@@ -27,6 +27,12 @@ from .config import SRPConfig
 from .typescript_metrics_calculator import TypeScriptMetricsCalculator
 
 
+def header_start(class_node: Any) -> tuple[int, int]:
+    """Return (row, column) of the class header, skipping decorators that precede it."""
+    header = next((child for child in class_node.children if child.type != "decorator"), class_node)
+    return header.start_point[0], header.start_point[1]
+
+
 class TypeScriptSRPAnalyzer(TypeScriptBaseAnalyzer):
     """Analyzes TypeScript classes for SRP violations."""
 
@@ -76,6 +82,6 @@ class TypeScriptSRPAnalyzer(TypeScriptBaseAnalyzer):
             "method_count": method_count,
             "loc": loc,
             "has_keyword": has_keyword,
-            "line": class_node.start_point[0] + 1,
-            "column": class_node.start_point[1],
+            "line": header_start(class_node)[0] + 1,
+            "column": header_start(class_node)[1],
         }
